@@ -1,0 +1,126 @@
+//go:build verif
+
+package gjkr
+
+import (
+	"fmt"
+	"math/big"
+
+	"github.com/ipfs/go-log/v2"
+
+	"github.com/keep-network/keep-core/pkg/protocol/group"
+	"github.com/keep-network/keep-core/pkg/protocol/state"
+)
+
+// Verification hooks for property C12 (thin wrappers, no behaviour of their
+// own): build one of the message-receiving states around a member created with
+// NewMember and the exported Initialize* chain, build a phase message, and
+// count the messages a state has stored.
+
+// VerifC12Sites is the number of shouldAcceptMessage call sites in states.go.
+const VerifC12Sites = 7
+
+// VerifC12Probe holds a receiving state and the group of its member.
+type VerifC12Probe struct {
+	State state.SyncState
+	Group *group.Group
+}
+
+// VerifC12NewProbe builds the state that contains the given call site:
+// 0 ephemeralKeyPairGenerationState, 1 and 2 commitmentState (shares,
+// commitments), 3 commitmentsVerificationState, 4 pointsShareState,
+// 5 pointsValidationState, 6 keyRevealState.
+func VerifC12NewProbe(
+	site int,
+	logger log.StandardLogger,
+	memberID group.MemberIndex,
+	groupSize int,
+	dishonestThreshold int,
+	membershipValidator *group.MembershipValidator,
+	sessionID string,
+) (*VerifC12Probe, error) {
+	local, err := NewMember(
+		logger,
+		memberID,
+		groupSize,
+		dishonestThreshold,
+		membershipValidator,
+		big.NewInt(1),
+		sessionID,
+	)
+	if err != nil {
+		return nil, err
+	}
+	ephemeral := local.InitializeEphemeralKeysGeneration()
+	committing := ephemeral.InitializeSymmetricKeyGeneration().InitializeCommitting()
+	verifying := committing.InitializeCommitmentsVerification()
+	sharing := verifying.InitializeSharesJustification().InitializeQualified().InitializeSharing()
+	revealing := sharing.InitializePointsJustification().InitializeRevealing()
+
+	var st state.SyncState
+	switch site {
+	case 0:
+		st = &ephemeralKeyPairGenerationState{member: ephemeral}
+	case 1, 2:
+		st = &commitmentState{member: committing}
+	case 3:
+		st = &commitmentsVerificationState{member: verifying}
+	case 4:
+		st = &pointsShareState{member: sharing}
+	case 5:
+		st = &pointsValidationState{member: sharing}
+	case 6:
+		st = &keyRevealState{member: revealing}
+	default:
+		return nil, fmt.Errorf("unknown site %d", site)
+	}
+	return &VerifC12Probe{State: st, Group: local.group}, nil
+}
+
+// VerifC12NewMessage builds the message type checked at the given call site.
+func VerifC12NewMessage(
+	site int,
+	senderID group.MemberIndex,
+	sessionID string,
+) interface{} {
+	switch site {
+	case 0:
+		return &EphemeralPublicKeyMessage{senderID: senderID, sessionID: sessionID}
+	case 1:
+		return &PeerSharesMessage{senderID: senderID, sessionID: sessionID}
+	case 2:
+		return &MemberCommitmentsMessage{senderID: senderID, sessionID: sessionID}
+	case 3:
+		return &SecretSharesAccusationsMessage{senderID: senderID, sessionID: sessionID}
+	case 4:
+		return &MemberPublicKeySharePointsMessage{senderID: senderID, sessionID: sessionID}
+	case 5:
+		return &PointsAccusationsMessage{senderID: senderID, sessionID: sessionID}
+	case 6:
+		return &MisbehavedEphemeralKeysMessage{senderID: senderID, sessionID: sessionID}
+	}
+	return nil
+}
+
+// VerifC12Stored returns the number of messages of the call site's type the
+// state has stored.
+func (p *VerifC12Probe) VerifC12Stored(site int) int {
+	switch st := p.State.(type) {
+	case *ephemeralKeyPairGenerationState:
+		return len(st.phaseMessages)
+	case *commitmentState:
+		if site == 1 {
+			return len(st.phaseSharesMessages)
+		}
+		return len(st.phaseCommitmentsMessages)
+	case *commitmentsVerificationState:
+		return len(st.phaseAccusationsMessages)
+	case *pointsShareState:
+		return len(st.phaseMessages)
+	case *pointsValidationState:
+		return len(st.phaseMessages)
+	case *keyRevealState:
+		return len(st.phaseMessages)
+	}
+	return -1
+}
